@@ -3,7 +3,6 @@
 package main
 
 import (
-	"encoding/json"
 	"fmt"
 
 	"github.com/tdakkota/docker-logql/internal/logql/logqlengine"
@@ -217,7 +216,7 @@ func c07Run(r *vkit.Run) {
 
 func c07Replay(r *vkit.Run, v vkit.Violation) *vkit.Violation {
 	var in c07Input
-	if err := json.Unmarshal(v.Input, &in); err != nil {
+	if err := vkit.DecodeInput(v, &in); err != nil {
 		r.HarnessError("bad input: %v", err)
 	}
 	return vkit.ReplayOne(r, func() { c07Check(r, in) })
